@@ -9,7 +9,7 @@ from typing_extensions import Never
 from mypy_extensions import mypyc_attr
 
 from pyjelly import jelly
-from pyjelly.errors import JellyConformanceError
+from pyjelly.errors import JellyAssertionError, JellyConformanceError
 from pyjelly.options import MAX_VERSION, LookupPreset, StreamParameters, StreamTypes
 from pyjelly.parse.lookup import LookupDecoder
 
@@ -258,18 +258,23 @@ class Decoder:
         return handler(row)
 
     def validate_stream_options(self, options: jelly.RdfStreamOptions) -> None:
+        # No assert statements here: for every options row after the first this is the
+        # only validation, and it has to hold under ``python -O`` as well.
         stream_types, lookup_preset, params = self.options
-        assert stream_types.physical_type == options.physical_type
-        assert stream_types.logical_type == options.logical_type
-        assert params.stream_name == options.stream_name
         if options.version > params.version:
-            # not an assert: it is the only place a newer protocol version is refused,
-            # and it has to hold under ``python -O`` as well
             msg = f"unsupported protocol version {options.version}"
             raise JellyConformanceError(msg)
-        assert lookup_preset.max_prefixes == options.max_prefix_table_size
-        assert lookup_preset.max_datatypes == options.max_datatype_table_size
-        assert lookup_preset.max_names == options.max_name_table_size
+        unchanged = (
+            stream_types.physical_type == options.physical_type
+            and stream_types.logical_type == options.logical_type
+            and params.stream_name == options.stream_name
+            and lookup_preset.max_prefixes == options.max_prefix_table_size
+            and lookup_preset.max_datatypes == options.max_datatype_table_size
+            and lookup_preset.max_names == options.max_name_table_size
+        )
+        if not unchanged:
+            msg = "stream options differ from the options the stream started with"
+            raise JellyAssertionError(msg)
 
     def ingest_prefix_entry(self, entry: jelly.RdfPrefixEntry) -> None:
         """
